@@ -43,7 +43,7 @@ class DaemonLayer:
         return self._run_one(seed, N, profile)
 
     def _run_one(self, seed, N, profile):
-        sim = daemon.simulate(seed, N, profile)
+        sim = daemon.simulate(seed, N, profile, conf=daemon.conf_for(seed))
         chunks = daemon.lean_side(sim)
         diffs = daemon.compare(sim, chunks) if self.do_compare else []
         tr = trace.parse(sim)
@@ -109,10 +109,10 @@ class DaemonLayer:
         return dict(name=self.name, evaluations=sum(r['passes'] for r in rs), distinct=sum(r['nontriv'] for r in rs),
                     samples=[r['sample'] for r in rs if r['sample']][:2],
                     stats=dict(sorted(stats.items())), diffs=[d for r in rs for d in r['diffs']], violations=[v for r in rs for v in r['violations']],
-                    rule='one evaluation = one pass of the daemon loop (kernel answers, client bytes and device bytes drawn from one PRNG per run; %d runs x %d passes, from the 17th run on with fault rates, calm phases and client counts perturbed per run; configuration mixp: vpc over tcp + statement-coverage spec as coprocess with ping); every pass compared field by field with the Lean model; non-trivial = a pass in which the real code issued at least one system call, distinct by the hash of everything it printed for that pass' % (nseeds, N))
+                    rule='one evaluation = one pass of the daemon loop (kernel answers, client bytes and device bytes drawn from one PRNG per run; %d runs x %d passes, from the 17th run on with fault rates, calm phases and client counts perturbed per run; configuration mixp: vpc over tcp + statement-coverage spec as coprocess with ping; every third run on mixp3: the tcp host resolves to three addresses, connect()/SO_ERROR answered per call); every pass compared field by field with the Lean model; non-trivial = a pass in which the real code issued at least one system call, distinct by the hash of everything it printed for that pass' % (nseeds, N))
 
     def replay(self, rp, v):
-        sim = daemon.simulate(rp['seed'], rp['N'], rp.get('profile'), fixed_ops=rp.get('ops'))
+        sim = daemon.simulate(rp['seed'], rp['N'], rp.get('profile'), conf=daemon.conf_for(rp['seed']), fixed_ops=rp.get('ops'))
         chunks = daemon.lean_side(sim)
         at = rp.get('at', len(sim['ops']) - 1)
         for i in range(max(0, at - 3), min(len(sim['ops']), at + 1)):
@@ -175,7 +175,7 @@ def D(*a, **k):
 PROPS['C01'] = dict(layers=[D(P.p_c01, P.p_c06_toolong, profile=dict(faults=0.4, longline=0.002))],
                     refines=[(r'^(Y write [23]\d\d\d |O dev \d+ to |O dev \d+ queue)', 'the actions queued or the plugs addressed on the wire are not what the request prescribes for this input (C01_appends, C01_wire_*)')], planned=['C01_validated (alias expansion)', 'C01_history_free at daemon level'])
 PROPS['C02'] = dict(layers=[D(P.p_c02_c03, P.p_c02_retry, P.p_c02_wire, profile=dict(faults=0.5))], planned=['end-to-end 309 <node> line for an unsuccessful setresult (needs a history of what was sent)', 'CLI exit composed with C16_cli_exit', 'queue-wide Interp.Inv along daemon runs (assumed in C02_completion_is_reference_done)'])
-PROPS['C03'] = dict(refines=[(r'^O RXMISMATCH', 'what is captured for the nodes of a query is not what its script defines: ' + 'the real interpreter evaluates another pattern than the script prescribes at this point of this input (C08_refines, C03_lists_justified)'), (r'^A \d+ ', 'the per-node states recorded for a query are not what the device answers give under its script (C08_setplugstate_writes, C03_lists_justified)')], layers=[D(P.p_c02_c03, P.p_c03_justified, profile=dict(faults=0.5))], planned=['which expect of which action filled the match register at the time of a write (a second ghost history); C03_stale_match_counterexample shows the register survives action boundaries', 'this device was never connected during the run => no write for its nodes (only the per-iteration lemma is proved)'])
+PROPS['C03'] = dict(refines=[(r'^O RXMISMATCH', 'what is captured for the nodes of a query is not what its script defines: ' + 'the real interpreter evaluates another pattern than the script prescribes at this point of this input (C08_refines, C03_lists_justified)'), (r'^A \d+ ', 'the per-node states recorded for a query are not what the device answers give under its script (C08_setplugstate_writes, C03_lists_justified)')], layers=[D(P.p_c02_c03, P.p_c03_justified, profile=dict(faults=0.5))], planned=['which expect of which action filled the match register at the time of a write, as a ghost history over whole runs (C03_match_is_own proves it state by state: the register is in use only while the head of the queue is past its start; C03_login_sees_stale_match_counterexample: _disconnect does not recycle, the login action that follows can see the old match)', 'this device was never connected during the run => no write for its nodes (only the per-iteration lemma is proved)'])
 PROPS['C04'] = dict(layers=[D(P.p_c04, P.p_c04_quit, P.p_c04_deadline, P.p_c04_xpoll, P.p_c15, profile=dict(hup=0.04)),
                           # long-lived sessions: thousands of request lines on one connection (the input ring wraps many times)
                           D(P.p_c04, P.p_c04_quit, P.p_c15, profile=dict(faults=0.1, quit=0.003, maxclients=3, calm=0.05), quick=(8, 2500), thorough=(128, 6000))], planned=['C04_one_reply', 'C04_no_wedge', 'C04_tenure', 'C04_bound_partial'])
@@ -296,7 +296,7 @@ class PairedLayer:
     def _one(self, args):
         seed, N = args
         V = []; diffs = []; st = collections.Counter()
-        sims = [daemon.simulate_sched(seed, N, False, self.conf), daemon.simulate_sched(seed, N, True, self.conf)]
+        sims = [daemon.simulate_sched(seed, N, False, daemon.conf_for(seed, self.conf)), daemon.simulate_sched(seed, N, True, daemon.conf_for(seed, self.conf))]
         trs = []
         for sim in sims:
             chunks = daemon.lean_side(sim)
@@ -306,6 +306,8 @@ class PairedLayer:
             if sim['died']: V.append(dict(sig='C05 daemon killed: ' + daemon.death_class(sim['stderr']), at=len(sim['ops']) - 1, detail=sim['stderr'][-800:]))
             V.extend(sleeping_calls(sim))
         st['sick mode ' + sims[1]['sick_mode']] += 1
+        st['runs on configuration ' + sims[0]['conf']] += 1
+        for sim in sims: st.update({k: v for k, v in sim['stats'].items() if k.startswith('multi-address')})
         views = [preds.client_views(t) for t in trs]
         for c in sims[0]['clients']:
             st['clients ' + c['kind']] += 1
@@ -355,7 +357,7 @@ class PairedLayer:
 
     def replay(self, rp, v):
         for sick in (False, True):
-            sim = daemon.simulate_sched(rp['seed'], rp['N'], sick, getattr(self, 'conf', 'mixp'))
+            sim = daemon.simulate_sched(rp['seed'], rp['N'], sick, daemon.conf_for(rp['seed'], getattr(self, 'conf', 'mixp')))
             at = rp.get('at', 0)
             print('=== device B', sim['sick_mode'])
             for i in range(max(0, at - 2), min(len(sim['ops']), at + 2)):
